@@ -394,6 +394,57 @@ def reentrancy(trace):
     return out
 
 
+def rtc_monitor(x, ctx):
+    """monitors independent of the model, for machines without deferring and blocking states:
+    (1) on a machine without submachines the callbacks of one event occurrence form one uninterrupted block (the running
+        step is never interleaved with another event's processing, an occurrence is not dispatched a second time later);
+    (2) stored events addressed to the same machine are dispatched in the order of their submission: events submitted
+        during this call, per target machine; on a machine without submachines every event of the call"""
+    z = ctx.z
+    if any(s.defer or s.kind in ('terminate', 'interrupt') for m in z.machines() for s in m.states):
+        return []
+    if any(r.defer for m in z.machines() for r in list(m.rows) + list(m.irows) + [ir for s in m.states for ir in s.irows]):
+        return []
+    out = []
+    order = []          # serials in order of first appearance
+    closed = set()
+    last = None
+    target = {}
+    for t in x.trace:
+        if t.K == '!':
+            if t.raw.startswith('!new:'):
+                f = t.raw.split(':')
+                ser = int(f[1].split('#')[1])
+                target[ser] = int(f[4]) if f[3] == 'local' else 0
+            continue
+        if t.serial is None or t.serial < 0:
+            continue
+        if t.serial != last:
+            # (a submachine finishes its own step and drains its own queue before the enclosing machine goes on with
+            # the same event in its other regions: the block structure is per machine, so it is checked on single machines)
+            if t.serial in closed and len(z.machines()) == 1:
+                out.append(('interleaved', f'callbacks of event #{t.serial} do not form one block: {t.raw} comes after other events were processed in between'))
+                return out
+            if last is not None:
+                closed.add(last)
+            order.append(t.serial)
+            last = t.serial
+    flat = len(z.machines()) == 1
+    if flat:
+        stored = [s_ for s_ in order if not (x.op == 'pe' and s_ == order[0] and s_ not in target)]
+        if stored != sorted(stored):
+            out.append(('fifo', f'stored events were dispatched in the order {stored}, submitted in the order {sorted(stored)}'))
+    else:
+        by_tgt = {}
+        for s_ in order:
+            if s_ in target:
+                by_tgt.setdefault(target[s_], []).append(s_)
+        for tg, lst in by_tgt.items():
+            if lst != sorted(lst):
+                out.append(('fifo', f'events submitted to machine {tg} during this call were dispatched in the order {lst}, submitted in the order {sorted(lst)}'))
+    return out
+
+
 def full_proj(trace, cfg):
     """everything, except completion guards answering false: back re-tries completion rows after every
     handled event, backmp11 only on entry (documented difference; the answer is fixed per entry of the
@@ -405,6 +456,8 @@ def o_C04(x, ctx):
     """run-to-completion: no re-entrancy (monitor), submission order / exactly-once / right machine
     (full trace equality with the model), nothing lost or duplicated (pending sets)"""
     out = reentrancy(x.trace)
+    if not out:
+        out = rtc_monitor(x, ctx)
     a = full_proj(x.trace, ctx.cfg)
     b = full_proj(x.mtrace, ctx.cfg)
     d = first_diff(a, b)
